@@ -11,6 +11,9 @@
   copy of X in the allow list with no route present (witness kept in corpus/C19, known/C19.json).
 -/
 import MM.Lemmas.C19
+import MM.Gen.LockC19a
+import MM.Gen.LockC19h
+import MM.Gen.LockC19m
 
 namespace MM.C19
 open MM
@@ -173,6 +176,75 @@ theorem C19_removed_is_gone (exitEnabled : Bool) (cfgNets : List Net) (pats : Li
   · dsimp only
     rw [keys_filter]
     simp
+
+/-! ### concurrent ManageRoute calls
+
+  `add` / `remove` above are ONE step each.  In the code each is two single-lock steps (routing
+  manager, then exit handler).  `ManageRoute` is called concurrently (HTTP API, control requests
+  from peers).  Unserialized, the steps of two calls interleave and the mirror breaks
+  (`C19_unserialized_refuted`; shown on the real code by the harness's `sched` op, which holds one
+  call at the scheduling point between its steps).  The code AS FIXED by
+  fixes/C19-serialize-manage-route.patch holds `Agent.routeManageMu` over the whole call, so every
+  concurrent history of ManageRoute calls is a sequence of the atomic `add`/`remove` above in lock
+  order, and the theorems above apply to it.  That the source has this shape is regenerated on every
+  run by tools/lockshape.go (MM/Gen/LockC19*.lean) and decided here. -/
+
+/-- The two steps compose to the atomic operation (so the micro-step model and `add` agree). -/
+theorem add_is_two_steps (s : St) (n : Net) (m : Nat) :
+    (add s n m).1 = (if (mAddStep s n m).2 then hAddStep (mAddStep s n m).1 n else s) := by
+  unfold add mAddStep hAddStep
+  dsimp only
+  split <;> simp_all
+
+theorem remove_is_two_steps (s : St) (n : Net) :
+    (remove s n).1 = (if (mRemoveStep s n).2 then hRemoveStep (mRemoveStep s n).1 n else s) := by
+  unfold remove mRemoveStep hRemoveStep
+  dsimp only
+  split <;> simp_all
+
+/-- What would hold if interleaved steps were harmless: after `add X ∥ remove X` have both
+    finished — in ANY interleaving of their steps — the allow list mirrors the dynamic routes. -/
+def C19_unserialized_statement : Prop :=
+  ∀ (x : Net),
+    -- the interleaving  add.1 ; remove.1 ; remove.2 ; add.2
+    let s0 := init false [] []
+    let s1 := (mAddStep s0 x 5).1
+    let s2 := (mRemoveStep s1 x).1
+    let s3 := hRemoveStep s2 x
+    let s4 := hAddStep s3 x
+    (s4.allowed.getD []).map Net.key = (dynNets s4).map Net.key
+
+/-- Refuted: that interleaving leaves X in the allow list with no dynamic route. -/
+theorem C19_unserialized_refuted : ¬ C19_unserialized_statement := by
+  intro h
+  have := h (mkNet [127, 1, 0, 0] 16)
+  revert this
+  decide
+
+/-- Lock shape of `Agent.ManageRoute` (fixed code): one acquisition of `routeManageMu`, and every use
+    of the routing manager, of the exit handler and of `ensureExitHandler` happens while it is held:
+    the two steps are inside ONE critical section. -/
+theorem C19_manage_route_atomic :
+    Gen.LockC19a.acquisitions = [("Agent.ManageRoute", 1)] ∧
+    Gen.LockC19a.accesses.all (fun a => a.2.2.2 == "W") = true ∧
+    Gen.LockC19a.calls.all (fun c => c.2.2 == "W") = true ∧
+    Gen.LockC19a.regions.all (fun r => r.2.2 == 1) = true ∧
+    (Gen.LockC19a.accesses.any (fun a => a.2.1 == "routeMgr") &&
+      Gen.LockC19a.accesses.any (fun a => a.2.1 == "exitHandler") &&
+      Gen.LockC19a.calls.any (fun c => c.2.1 == "ensureExitHandler")) = true := by decide
+
+/-- Lock shape of the two steps and of the readers: every access to the allow list
+    (`Handler.cfg` in these methods) and to the manager's route maps is inside the method's single
+    critical section — writers under the write lock, readers (`isAllowed`, `GetDynamicRoutes`) under
+    the read lock — so each is one atomic step of the model. -/
+theorem C19_steps_atomic :
+    Gen.LockC19h.acquisitions.all (fun a => a.2 == 1) = true ∧
+    Gen.LockC19h.accesses.all (fun a => (a.2.2.2 == "W") || (a.2.2.1 == false && a.2.2.2 == "R")) = true ∧
+    Gen.LockC19h.acquisitions.map (·.1) =
+      ["Handler.AddAllowedRoute", "Handler.AllowedRouteCount", "Handler.RemoveAllowedRoute", "Handler.isAllowed"] ∧
+    Gen.LockC19m.acquisitions.all (fun a => a.2 == 1) = true ∧
+    Gen.LockC19m.accesses.all (fun a => (a.2.2.2 == "W") || (a.2.2.1 == false && a.2.2.2 == "R")) = true ∧
+    Gen.LockC19m.regions.all (fun r => r.2.2 == 1 || r.2.1 == "call:notifyChange") = true := by decide
 
 /-! ### concrete instances (non-vacuity and the former defect) -/
 
